@@ -84,8 +84,11 @@ def prune_old_builds(keep=3):
     ents = [(os.path.getmtime(os.path.join(root, d)), d) for d in os.listdir(root)
             if os.path.isdir(os.path.join(root, d)) and d != cur]
     ents.sort(reverse=True)
-    for _, d in ents[keep - 1:]:
-        shutil.rmtree(os.path.join(root, d), ignore_errors=True)
+    import time
+    for mt, d in ents[keep - 1:]:
+        # never a build touched in the last two hours: another check (another tree, e.g. a seeded-change run) may be using it
+        if time.time() - mt > 2 * 3600:
+            shutil.rmtree(os.path.join(root, d), ignore_errors=True)
 
 
 class _Lock:
@@ -112,6 +115,10 @@ def lib(flavour):
     """Build (or reuse) libgr.a for this flavour; returns its directory."""
     d = os.path.join(build_root(), flavour)
     target = os.path.join(d, 'libgr.a')
+    try:
+        os.utime(build_root(), None)         # "in use" mark for prune_old_builds
+    except OSError:
+        pass
     if os.path.exists(target):
         return d
     with _Lock(os.path.join(build_root(), '.lock-' + flavour)):
